@@ -272,6 +272,8 @@ class SegmentTensor(PolytopeTensor):
         at_infinity = y <= EQ_TOL_ABS * (np.abs(cd) ** 2 + np.abs(bd) ** 2)
         # x and y scale with the fourth power of the length of the segment: the tolerance must not exceed a relative one
         tol = tol * np.minimum(1, y)
+        # ... and not fall below the rounding error of x and y themselves (coordinates of the order of 1000 and more)
+        tol = np.maximum(tol, 64 * np.finfo(np.float64).eps * (np.abs(cd) ** 2 + np.abs(bd) ** 2))
         return result & ~at_infinity & (0 <= x + tol) & (x <= y + tol)
 
     def intersect(
